@@ -23,9 +23,16 @@ def msg_of(kind, dev):
     return _MSG_CACHE[key]
 
 
+CRAFTED = {"from_device": ' from_device="1"', "from_client-empty": ' from_client=""', "from_client": ' from_client="1"', "from_device-empty": ' from_device=""'}
+
+
 def _msg_of(kind, dev):
     from mc import lib
 
+    extra = None
+    if "+" in kind:
+        # a message that arrives over the wire with an additional, unknown attribute named like an internal flag
+        kind, extra = kind.split("+", 1)
     k = G.KINDS[kind]
     d = G.skeleton(kind, (), 1 if k.child else 0)
     attrs = tuple((n, v) for n, v in d[1] if n != "device")
@@ -42,7 +49,11 @@ def _msg_of(kind, dev):
     # fresh str objects, never the interned constants of indi.message.const)
     import indi.message as M
 
-    return M.IndiMessage.from_string(m.to_string())
+    data = m.to_string().decode("latin1")
+    if extra:
+        i = data.index("<" + kind) + len(kind) + 1
+        data = data[:i] + CRAFTED[extra] + data[i:]
+    return M.IndiMessage.from_string(data)
 
 
 class Sys:
@@ -198,6 +209,7 @@ class Model:
             self.pol[c][dev] = p
             return [d for d in self.devices if self.accepts(d, dev)], []
         _, kind, dev, sender = ev
+        kind = kind.split("+")[0]  # crafted attributes do not change what a message is
         k = G.KINDS[kind]
         to_dev, to_cli = [], []
         if k.origin in ("client", "both"):
